@@ -2,7 +2,7 @@
 # usage: tools/verify_seeded.sh <dir with patch.diff and demo.rs>
 # Confirms in the scratch worktree /tmp/wt/own: patch applies; full suite passes with it; demo fails with it; demo passes without it.
 set -u
-d="$1"; W=/tmp/wt/own
+d="$1"; W=${W:-/tmp/wt/own}
 cd $W || exit 3
 git checkout -q -- . ; rm -rf tests
 git apply --check "$d/patch.diff" || { echo "RESULT patch does not apply"; exit 1; }
